@@ -58,7 +58,7 @@ def confirm(d, target="/tmp/seedcheck_target"):
         def run_py():
             outs = []
             for f in py_demos:
-                env = dict(ENV, CARGO_TARGET_DIR=target, CHOKAN_ROOT=wt, PORT=str(20000 + os.getpid() % 20000))
+                env = dict(ENV, CARGO_TARGET_DIR=target, CHOKAN_ROOT=wt, PORT=str(20000 + (os.getpid() * 7 + sum(map(ord, wt))) % 20000))
                 cmd = ["python3", f] if f.endswith(".py") else ["bash", f]
                 rc, o = sh(cmd, cwd=wt, env=env, timeout=1800)
                 outs.append((f, rc, o[-1500:]))
